@@ -155,6 +155,7 @@ inductive HostOp
   | symlink (target linkpath : Bytes)
   | readlink (path : Bytes) (bufLen : Nat)
   | stat (path : Bytes)
+  | lstat (path : Bytes)
   deriving DecidableEq, Repr
 
 /-- which path call -/
@@ -167,7 +168,7 @@ def PathCall.hostOp : PathCall → Bytes → HostOp
   | .removeDirectory, p => .rmdir p
   | .unlinkFile, p => .unlink p
   | .readlink n, p => .readlink p n
-  | .filestatGet, p => .stat p
+  | .filestatGet, p => if Gen.WasiPath.filestatHostCall == "stat" then .stat p else .lstat p   -- the regenerated host call
 
 /-- A descriptor-table slot as far as the path calls look at it: `path` (`none` = NULL). -/
 abbrev FdTable := List (Option Bytes)
